@@ -155,4 +155,48 @@ theorem lhColumn_single {R α : Type} [CommSemiring R] (m : Nat) (bprobs : List 
 
 example : lhBins 2 [1, 2] [(exPi, exTree), (exPi, exTree2)] exProf = 240 + 2 * lh 2 exPi exProf exTree2 := by decide
 
+/-! ## Composite statements (added by the audit): the pieces above chained into the sentence of the property -/
+
+/-- **Reported log-likelihood = defining sum (one bin).** What the implementation reports — compress the
+columns with `_indexed`, evaluate the pruning recursion on the unique columns, weight `log` of each by its
+count — equals the sum over *all* alignment columns of `log` of the sum over all labelings, for every
+function `logf` (so nothing about `log` is assumed). -/
+theorem lnL_eq_definition {R α κ S : Type} [CommSemiring R] [DecidableEq κ] [AddCommMonoid S]
+    (logf : R → S) (m : Nat) (π : Nat → R) (prof : κ → α → Nat → R) (t : PTree R α) (cols : List κ) :
+    lnLCompressed (fun c => logf (lh m π (prof c) t)) cols
+      = (cols.map fun c => logf (bruteForce (fun _ _ => true) m π (prof c) t)).sum := by
+  rw [compress_sum]
+  simp only [lnLPlain, prune_eq_bruteForce]
+
+/-- the same with rate bins: the column likelihood inside `log` is the `bprobs`-weighted mixture -/
+theorem lnL_bins_eq_definition {R α κ S : Type} [CommSemiring R] [DecidableEq κ] [AddCommMonoid S]
+    (logf : R → S) (m : Nat) (bprobs : List R) (bins : List ((Nat → R) × PTree R α))
+    (prof : κ → α → Nat → R) (cols : List κ) :
+    lnLCompressed (fun c => logf (lhBins m bprobs bins (prof c))) cols
+      = (cols.map fun c => logf
+          ((List.zip bprobs bins).map fun p => p.1 * bruteForce (fun _ _ => true) m p.2.1 (prof c) p.2.2).sum).sum := by
+  rw [compress_sum]
+  simp only [lnLPlain, bins_mixture]
+
+/-- non-trivial instance: three columns (one repeated) over `exTree`; `logf = (· + 1)` stands in for `log` -/
+example : lnLCompressed (fun c : Nat => (lh 2 exPi (fun a s => exProf (a + c) s) exTree) + 1) [0, 1, 0]
+    = (bruteForce (fun _ _ => true) 2 exPi (fun a s => exProf a s) exTree + 1)
+      + (bruteForce (fun _ _ => true) 2 exPi (fun a s => exProf (a + 1) s) exTree + 1)
+      + (bruteForce (fun _ _ => true) 2 exPi (fun a s => exProf a s) exTree + 1) := by decide
+
+/-- **The hierarchically compressed evaluation returns the defining sums**, column by column
+(`compressed_prune_eq` chained with `prune_eq_bruteForce`). -/
+theorem compressed_eq_definition {R α : Type} [CommSemiring R] (m n : Nat) (π : Nat → R) (seqs : α → List Nat)
+    (symProf : Nat → Nat → R) (t : PTree R α) (hl : ∀ a ∈ t.leaves, (seqs a).length = n) :
+    clhFull m n π seqs symProf t
+      = (List.range n).map fun j => bruteForce (fun _ _ => true) m π (colProf seqs symProf j) t := by
+  rw [compressed_prune_eq m n π seqs symProf t hl]
+  simp only [prune_eq_bruteForce]
+
+example : ∀ a ∈ exTree.leaves, ((fun a => if a = 0 then [0, 1, 0, 0] else [1, 1, 1, 0]) a).length = 4 := by decide
+example : bruteForce (fun _ _ => true) 2 exPi
+    (colProf (fun a => if a = 0 then [0, 1, 0, 0] else [1, 1, 1, 0]) (fun sym s => if sym = s then 1 else 0) 1) exTree = 522 := by
+  decide
+
+
 end CogentModel.C02
